@@ -7,7 +7,7 @@ RULE = ("histories: 7 script functions (counter closure writing a global, variad
         "module, try/finally with logging, one that re-enters the host) x every sequence of three calls each made in the script, "
         "through a pooled Invoker or through an unpooled Invoker from a Go callback during the run, plus histories of three calls made by ONE Invoker (acquired once, child VM re-used; incl. recursion in statement position ending in an uncaught throw, and errors escaping through finally) in 3 orders; the TLA+ reference treats "
         "the three alike (invariant InvSame) and gives result, thrown error, log, captured-variable and global state after every "
-        "call; optimizer on/off; non-trivial = histories with at least one call from Go")
+        "call; optimizer on/off; non-trivial = histories with at least one call from Go; failures: every failure kind of the UgoPanic matrix with recovery on - the function called in the script against the same function called through a pooled / unpooled Invoker from a callback or after Run (InvokePairs, InvokeSame)")
 
 def run(ctx):
     semcommon.run_sem(ctx, "UgoSemFam_c14", ["default", "noopt"] if ctx.quick else ["default", "noopt", "default+rt", "noopt+twice"],
